@@ -2,9 +2,11 @@ package scen
 
 import (
 	"context"
+	"errors"
 	"io"
 	"net/rpc"
 	"time"
+	"verif/engine/vs"
 
 	plugin "github.com/hashicorp/go-plugin"
 	grpctest "github.com/hashicorp/go-plugin/test/grpc"
@@ -39,6 +41,17 @@ func (p *tagRPCPlugin) Server(b *plugin.MuxBroker) (interface{}, error) {
 func (p *tagRPCPlugin) Client(b *plugin.MuxBroker, c *rpc.Client) (interface{}, error) {
 	p.cb = b
 	return c, nil
+}
+
+// failingRPCPlugin's Server() fails, after a scheduling point (so that other dispenses can overlap with it).
+type failingRPCPlugin struct{}
+
+func (failingRPCPlugin) Server(*plugin.MuxBroker) (interface{}, error) {
+	vs.Point("failing-Server()")
+	return nil, errors.New("this plugin cannot be served")
+}
+func (failingRPCPlugin) Client(*plugin.MuxBroker, *rpc.Client) (interface{}, error) {
+	return nil, errors.New("no client")
 }
 
 // ---- gRPC test plugin: PingPong "main" + a Test service whose Stream blocks (a call in flight).
